@@ -954,6 +954,7 @@ class TcpFlow:
         self.preface = b""
         self.last_t = None              # monotonic time of this flow's latest logged event (Lapse detection)
         self.lapsed = False
+        self._ended_before = {"app": None, "tgt": None}
         self.throttle = {"app": 0.0, "tgt": 0.0}   # seconds slept by the reader of that side after each recv (slow reader)
         self.hold = None                # (arrived: asyncio.Event, release: asyncio.Event) given by run_batch for ("hold",)
         self.small_rcvbuf = any(s[0] == "throttle" for s in steps)
@@ -966,12 +967,16 @@ class TcpFlow:
         kw["f"] = self.f
         # Lapse (RelayAbs): one side has closed and nothing at all was written, read or observed on this flow for LAPSE_S
         # seconds (half of the relay's close grace): from here on a half-closed side may lose the rest of its answer
+        # ... and the silence is the outer parties' own: the side opposite to the closer had already OBSERVED that end when
+        # the silent period began (it was its turn to act).  Silence before the end was passed on is the relay's doing.
         now = time.monotonic()
+        told = self._ended_before
         if (self.last_t is not None and not self.lapsed and now - self.last_t >= LAPSE_S
-                and (self.closed["app"] or self.closed["tgt"])):
+                and ((self.closed["app"] and told["tgt"]) or (self.closed["tgt"] and told["app"]))):
             self.lapsed = True
             self.log.add("Lapse", f=self.f, gap=round(now - self.last_t, 2))
         self.last_t = now
+        self._ended_before = dict(self.ended)
         if ev in ("TgtGot", "AppGot"):
             for e in reversed(self.log.events):
                 if e.get("f") == self.f:
